@@ -2,6 +2,7 @@ import HexProofs.Framework.Schedule
 import HexProofs.Framework.Fill
 import HexProofs.Framework.Kinds.All
 import HexProofs.Framework.Gen.AllX
+import HexProofs.Framework.Gen.ChainHex
 import HexProofs.Lib.IntInst
 import HexProps.C03
 /-
@@ -163,6 +164,49 @@ theorem batch_iff_rowMajor_trees (k : Kind F) (name : String) (round : Nat) (hk 
   obtain ⟨T, _⟩ := hk.spec round
   exact ⟨T, fun out => T.batch_iff (MgrSpec.base F) stream hp out⟩
 
+/-! ### inputs that are another indicator's reading: chains of members in a Hexital -/
+
+open Hex.Chain in
+/-- **C01 for an indicator-valued input** (the standard usage pattern): a `Hexital` holding a SOURCE member
+`A = mkTop kA nameA roundA` – SMA / EMA / RMA / WMA / ROC over a candle attribute, MACD, KC, Supertrend, BBANDS,
+STOCH, TSI or ADX (`ChainSource`) – and a DEPENDENT member `B`, an SMA / EMA / RMA / WMA / ROC (`DepKind`) whose
+`input_value` addresses `A`'s output: its name or a dotted field of its dict (`InputOf main inp`; the input therefore
+starts late).  Both on the Hexital's own manager, any timeframe, gap filling off or on.  `pairRun` is construction
+over `init`, `calculate()`, then one `Hexital.append` per chunk.  Whenever the live history returns, the batch
+Hexital over the whole stream returns with the same managers: the same candles and the same readings of BOTH
+members on every candle.  (HexProofs/Framework/Gen/Chain.lean: `A.calculate(); B.calculate()` on shared candles is
+the pass of `TComp.seq` of their components.) -/
+theorem C01_chain_covered (tf : Option Int) (htf : ∀ t, tf = some t → 0 < t) (fill : Bool)
+    {nameA : String} {kA : Kind F} (hA : ChainSource nameA kA) (roundA : Nat)
+    {inp : String} {kB : Kind F} (d : DepKind (F := F) inp kB) (nameB : String) (roundB : Nat)
+    (hB : IsKey nameB) (main : String) (hin : InputOf main inp) (hneB : nameB ≠ main)
+    (hfresh : nameB ∉ (mkTop kA nameA roundA).allNames) (tfn : Option String)
+    (init : List (Candle F)) (chunks : List (List (Candle F))) (hraw : RawTf (init ++ chunks.flatten))
+    (H : Hexital F)
+    (hlive : pairRun (mkTop kA nameA roundA) (mkTop kB nameB roundB) { tf := tf, fill := fill && tf.isSome }
+      tfn init chunks = .ok H) :
+    ∃ Hb, pairRun (mkTop kA nameA roundA) (mkTop kB nameB roundB) { tf := tf, fill := fill && tf.isSome }
+        tfn (init ++ chunks.flatten) [] = .ok Hb ∧ Hb.managers = H.managers :=
+  Hex.Chain.C01_chain_covered tf htf fill hA roundA d nameB roundB hB main hin hneB hfresh tfn init chunks hraw H hlive
+
+open Hex.Chain in
+/-- **Chains of any length**: members `ts` registered in this order on the one default manager, each reading only under
+the names of EARLIER members and its own (`ChainComps`), names pairwise disjoint.  Whenever the live history returns,
+the batch Hexital returns with the same managers and registrations, and the candles are the row-major run of the
+chain's spec over the (collapsed / filled) stream. -/
+theorem C01_chain_any_length {ts : List (Ind F)} (c : ChainComps [] ts) (M : MgrSpec F) (tfn : Option String)
+    (init : List (Candle F)) (chunks : List (List (Candle F))) (hok : M.Ok (init ++ chunks.flatten))
+    (H : Hexital F) (hlive : chainRun ts M.cfg tfn init chunks = .ok H) :
+    ∃ Hb cs, chainRun ts M.cfg tfn (init ++ chunks.flatten) [] = .ok Hb ∧
+      Hb.managers = H.managers ∧ Hb.indicators.map regInfo = H.indicators.map regInfo ∧
+      H.managers = [(defaultKey, { cfg := M.cfg, candles := cs })] ∧
+      Gen.rowMajor (chainSpec c).S (M.spec (init ++ chunks.flatten)) = .ok cs :=
+  chain_live_eq_batch c M tfn init chunks hok H hlive
+
+/-- non-vacuity: the three-member chain SMA_2 → EMA_2 over "SMA_2" → ROC over "EMA_2" of HexProofs/Framework/Gen/ChainHex.lean
+(`Hex.Chain.Demo`, evaluated there with `decide +kernel`: the live run returns, the dependent readings start late) -/
+example := @Hex.Chain.Demo.demoChain
+
 /-! ### the full statement -/
 
 /-- period parameters of a kind -/
@@ -185,8 +229,11 @@ structure WellFormed (xs : List (Candle F)) : Prop where
 /-- **C01 at full strength**: every shipped kind (27 classes, composites included, as built by
 `mkTop`), every parameter choice with positive periods, base or collapsing timeframe, with or
 without gap filling, every construction prefix and append schedule.
-NOT proved at this strength.  Missing: (i) inputs that are other indicators' readings (here: candle
-attributes only, the stream being raw); (ii) parameter corners the covered proofs exclude because the code then
+NOT proved at this strength.  Missing: (i) inputs that are other indicators' readings are proved for the standard
+pattern only (`C01_chain_covered`, `C01_chain_any_length`: dependent SMA / EMA / RMA / WMA / ROC members over a source member on
+the same manager); not for dependent composites (RSI over an EMA, …), sources without a component instance (ATR, RSI, VWAP, STDEV,
+HMA, the non-average leaves) or members on different timeframes;
+(ii) parameter corners the covered proofs exclude because the code then
 takes the `if start_index and end_index` fallback to a full `calculate()` of a child at index 0: period 1 for HMA
 and STOCH; Amorph wrappers are covered for the 20 shipped analysis functions only; (iii) names that are not ordinary
 keys (a dot in `fullname_override`) or collide with helper names.
